@@ -129,3 +129,77 @@ pub fn arc_selftest() -> Result<Value, String> {
     }
     Ok(json!({"oracle": "A (arc membership)", "table_checks": n, "integer_vs_real_lattice_points": m}))
 }
+
+/// Oracle D (brute-force mesh distance): analytic box gaps, and agreement with parry3d::query::distance on
+/// random box pairs (statistics recorded; calibrates the guard band).
+pub fn mesh_selftest() -> Result<Value, String> {
+    use crate::mesh::*;
+    let unit = MeshSpec { lo: [-0.5, -0.5, -0.5], hi: [0.5, 0.5, 0.5], fan: 0 };
+    let fan = MeshSpec { lo: [-0.5, -0.5, -0.5], hi: [0.5, 0.5, 0.5], fan: 1 };
+    let mut checks = 0;
+    for gap in [0.001, 0.05, 0.3, 2.0] {
+        for ang in [0.0, 0.4, 1.3] {
+            // faces parallel, second box rotated about x and shifted along x by 1 + gap
+            let p2 = Iso::new(rotx(ang), [1.0 + gap, 0.1, -0.2]);
+            let d = mesh_dist(&unit.world_tris(&Iso::identity()), &fan.world_tris(&p2));
+            if (d - gap).abs() > 1e-12 {
+                return Err(format!("oracle D: parallel boxes at gap {} (rot {}): got {}", gap, ang, d));
+            }
+            checks += 1;
+        }
+        // corner to corner along the diagonal
+        let s = 1.0 + gap;
+        let p2 = Iso::new(ident(), [s, s, s]);
+        let d = mesh_dist(&unit.world_tris(&Iso::identity()), &unit.world_tris(&p2));
+        let want = (3.0f64).sqrt() * gap;
+        if (d - want).abs() > 1e-12 {
+            return Err(format!("oracle D: corner distance at gap {}: got {} want {}", gap, d, want));
+        }
+        checks += 1;
+    }
+    // penetrating boxes -> 0
+    let p2 = Iso::new(axis_angle(&[1.0, 2.0, 3.0], 0.7), [0.6, 0.2, 0.1]);
+    if mesh_dist(&unit.world_tris(&Iso::identity()), &unit.world_tris(&p2)) != 0.0 {
+        return Err("oracle D: penetrating boxes must have distance 0".into());
+    }
+    // agreement with parry on pseudo-random pairs (deterministic LCG)
+    let mut state: u64 = 0x1234_5678_9abc_def0;
+    let mut rnd = || {
+        state = state.wrapping_mul(6364136223846793005).wrapping_add(1442695040888963407);
+        ((state >> 11) as f64) / ((1u64 << 53) as f64)
+    };
+    let mut max_diff = 0.0f64;
+    let mut n = 0;
+    let mut n_sep = 0;
+    let mut disagree_intersect = 0;
+    for _ in 0..1500 {
+        let a = MeshSpec { lo: [-(0.05 + rnd() as f32 * 0.4), -(0.05 + rnd() as f32 * 0.4), -(0.05 + rnd() as f32 * 0.4)], hi: [0.05 + rnd() as f32 * 0.4, 0.05 + rnd() as f32 * 0.4, 0.05 + rnd() as f32 * 0.4], fan: (rnd() * 2.0) as u8 };
+        let b = MeshSpec { lo: [-(0.05 + rnd() as f32 * 0.4), -(0.05 + rnd() as f32 * 0.4), -(0.05 + rnd() as f32 * 0.4)], hi: [0.05 + rnd() as f32 * 0.4, 0.05 + rnd() as f32 * 0.4, 0.05 + rnd() as f32 * 0.4], fan: (rnd() * 2.0) as u8 };
+        let pa = Iso::new(axis_angle(&[rnd() - 0.5, rnd() - 0.5, rnd() - 0.5], rnd() * 6.0), [rnd() * 2.0 - 1.0, rnd() * 2.0 - 1.0, rnd() * 2.0 - 1.0]);
+        let pb = Iso::new(axis_angle(&[rnd() - 0.5, rnd() - 0.5, rnd() - 0.5], rnd() * 6.0), [rnd() * 3.0 - 1.5, rnd() * 3.0 - 1.5, rnd() * 3.0 - 1.5]);
+        let (pa32, pb32) = (iso_to_f32(&pa), iso_to_f32(&pb));
+        let d_oracle = mesh_dist(&a.world_tris(&iso_from_f32(&pa32)), &b.world_tris(&iso_from_f32(&pb32)));
+        let d_parry = parry3d::query::distance(&pa32, &a.trimesh(), &pb32, &b.trimesh()).map_err(|e| format!("parry distance: {:?}", e))? as f64;
+        let i_parry = parry3d::query::intersection_test(&pa32, &a.trimesh(), &pb32, &b.trimesh()).map_err(|e| format!("parry intersection: {:?}", e))?;
+        n += 1;
+        if d_oracle > 1e-3 {
+            n_sep += 1;
+            max_diff = max_diff.max((d_oracle - d_parry).abs());
+            if i_parry {
+                disagree_intersect += 1;
+            }
+        } else if d_oracle == 0.0 && !i_parry && !contained(&a, &pa, &b, &pb) {
+            // grazing contacts may differ; count only
+            disagree_intersect += 1;
+        }
+    }
+    if max_diff > 1e-4 {
+        return Err(format!("oracle D disagrees with parry3d::query::distance by {:e} on separated random boxes", max_diff));
+    }
+    Ok(json!({"oracle": "D (brute-force triangle-triangle mesh distance)", "analytic_checks": checks, "random_pairs": n, "separated_pairs_compared": n_sep,
+              "max_abs_diff_vs_parry": max_diff, "intersection_disagreements": disagree_intersect, "guard_band_m": GUARD}))
+}
+
+/// Guard band (m) around every distance threshold: far above the measured parry-vs-oracle disagreement
+/// (f32 meshes and poses: ~1e-6 m) and the f32 cast of the link poses.
+pub const GUARD: f64 = 1e-4;
